@@ -76,31 +76,41 @@ func (d *DebugDialer) Dial(ctx context.Context, urlstr string) (conn net.Conn, b
 		// bytes from server. The response parser knows where the response
 		// ends, whatever line endings the server uses.
 		p := resBuf.Bytes()
-		n := resLen // Response (head and body) end index.
+		n := resLen
 		if n > len(p) {
 			n = len(p)
 		}
 
 		onResponse(p[:n])
 
-		if br != nil {
-			// If br is non-nil, then it mean two things. First is that
-			// handshake is OK and server has sent additional bytes – probably
-			// immediate sent frames (or weird but possible response body).
-			// Second, the bad one, is that br buffer's source is now rwConn
-			// instance from above WrapConn call. It is incorrect, so we must
-			// fix it.
-			var r io.Reader = conn
-			if len(p) > n {
-				// Buffer contains more than just HTTP response bytes.
-				r = io.MultiReader(
-					bytes.NewReader(p[n:]),
+		if err == nil {
+			// Handshake is OK. Bytes that follow the response – probably
+			// immediate sent frames – were prefetched from the connection by
+			// the response parser, so they must be given back to the caller
+			// through br, even if Dialer returned no buffer because its own
+			// one ended exactly at the end of the response. Also, if br is
+			// non-nil, its source is the rwConn instance from above WrapConn
+			// call. It is incorrect, so we must fix it.
+			if rest := p[n:]; len(rest) > 0 {
+				r := io.MultiReader(
+					bytes.NewReader(rest),
 					conn,
 				)
+				if br == nil || br.Size() < len(rest) {
+					// All of rest must fit into the buffer: a caller reads
+					// what is buffered and then switches to conn.
+					if br != nil {
+						ws.PutReader(br)
+					}
+					br = bufio.NewReaderSize(r, len(rest))
+				} else {
+					br.Reset(r)
+				}
+				// Must make br.Buffered() to be len(rest).
+				br.Peek(len(rest))
+			} else if br != nil {
+				br.Reset(conn)
 			}
-			br.Reset(r)
-			// Must make br.Buffered() to be non-zero.
-			br.Peek(len(p[n:]))
 		}
 	}
 
